@@ -710,18 +710,25 @@ impl ParserListener for Screen {
                     );
                 }
             } else if char_width == 0 && is_combining_mark(char) {
+                // A never-written cell is a blank like any other.
+                let default = self.default_char();
                 if self.cursor.x > 0 {
-                    if let Some(last) = line.get_mut(&(self.cursor.x - 1)) {
-                        last.data = last.data.nfc().collect::<String>() + &char.to_string();
-                    }
-                } else if self.cursor.y > 0 {
-                    if let Some(last) = self
+                    let last = self
                         .buffer
-                        .get_mut(&(self.cursor.y - 1))
-                        .and_then(|l| l.get_mut(&(self.columns - 1)))
-                    {
-                        last.data = last.data.nfc().collect::<String>() + &char.to_string();
-                    }
+                        .entry(self.cursor.y)
+                        .or_insert_with(HashMap::new)
+                        .entry(self.cursor.x - 1)
+                        .or_insert(default);
+                    last.data = last.data.nfc().collect::<String>() + &char.to_string();
+                } else if self.cursor.y > 0 {
+                    let last = self
+                        .buffer
+                        .entry(self.cursor.y - 1)
+                        .or_insert_with(HashMap::new)
+                        .entry(self.columns - 1)
+                        .or_insert(default);
+                    last.data = last.data.nfc().collect::<String>() + &char.to_string();
+                    self.dirty.insert(self.cursor.y - 1);
                 }
             }
 
